@@ -36,13 +36,15 @@ fn run(ctx: &RunCtx) -> Report {
     let worst_empty: Rc<RefCell<BTreeMap<HostId, (u64, u64)>>> = Default::default();
     let tau: Rc<RefCell<u64>> = Rc::new(RefCell::new(500 * MS));
     let hub_alive: Rc<RefCell<bool>> = Rc::new(RefCell::new(true));
+    // nodes currently cut off from everybody by a partition
+    let isolated: Rc<RefCell<BTreeSet<HostId>>> = Default::default();
     {
-        let (es, we, tau, hub_alive) = (empty_since.clone(), worst_empty.clone(), tau.clone(), hub_alive.clone());
+        let (es, we, tau, hub_alive, isolated) = (empty_since.clone(), worst_empty.clone(), tau.clone(), hub_alive.clone(), isolated.clone());
         sim.set_observer(Box::new(move |h, now, s| {
             let mut t = tau.borrow_mut();
             *t = (*t).max(s.socket.request_timeout_ns);
             let mut es = es.borrow_mut();
-            if s.routing_table.size == 0 && !s.bootstrap.is_empty() && *hub_alive.borrow() {
+            if s.routing_table.size == 0 && !s.bootstrap.is_empty() && *hub_alive.borrow() && !isolated.borrow().contains(&h) {
                 let since = *es.entry(h).or_insert(now);
                 let mut we = we.borrow_mut();
                 let e = we.entry(h).or_insert((0, 0));
@@ -92,6 +94,38 @@ fn run(ctx: &RunCtx) -> Report {
         if let Some(rt) = restart {
             sim.at(rt, move |sim| sim.restart(victim, None));
         }
+    }
+    // partitions: a server is cut off from everybody for a while, then the network heals
+    let mut partition_windows: Vec<(u64, u64)> = vec![];
+    let n_parts = if rng.chance(1, 3) { rng.usize(1, 2) } else { 0 };
+    for _ in 0..n_parts {
+        let victim = net.servers[rng.usize(0, net.servers.len() - 1)];
+        if victim == net.first || crash_times.contains_key(&victim) {
+            continue;
+        }
+        let at = t0 + rng.range(60, (hours * 3600).saturating_sub(2500).max(61)) * SEC;
+        let heal = at + rng.range(60, 1800) * SEC;
+        plan_lines.push(format!("partition {} from everybody from t={}s to t={}s", sim.node_addr(victim), at / SEC, heal / SEC));
+        let vip = *sim.node_addr(victim).ip();
+        let others: Vec<std::net::Ipv4Addr> = all.iter().filter(|h| **h != victim).map(|h| *sim.node_addr(*h).ip()).collect();
+        let (o1, o2) = (others.clone(), others);
+        let (i1, i2) = (isolated.clone(), isolated.clone());
+        sim.at(at, move |sim| {
+            for ip in &o1 {
+                sim.block(vip, *ip);
+                sim.block(*ip, vip);
+            }
+            i1.borrow_mut().insert(victim);
+        });
+        sim.at(heal, move |sim| {
+            for ip in &o2 {
+                sim.unblock(vip, *ip);
+                sim.unblock(*ip, vip);
+            }
+            i2.borrow_mut().remove(&victim);
+        });
+        report.probe("partitions_planned", 1);
+        partition_windows.push((at, heal));
     }
     let n_lookups = rng.usize(0, 30);
     for _ in 0..n_lookups {
@@ -316,7 +350,9 @@ fn run(ctx: &RunCtx) -> Report {
             }
         }
         for (p, at) in &restarted_at {
-            if sim.alive(*p) && t > at + 40 * 60 * SEC && !relearned.contains(p) && *hub_alive.borrow() {
+            // a partition during the re-learning window postpones it
+            let disturbed = partition_windows.iter().any(|(a, b)| *a < at + 65 * 60 * SEC && *b + 20 * 60 * SEC > *at);
+            if sim.alive(*p) && t > at + 65 * 60 * SEC && !relearned.contains(p) && *hub_alive.borrow() && !disturbed {
                 report.violate("healthy-table", "restarted-peer-not-relearned", format!("at t={}s no other node has {} under its new id in its routing table, {} min after its restart", t / SEC, sim.node_addr(*p), (t - at) / (60 * SEC)));
                 break 'outer;
             }
@@ -368,7 +404,7 @@ pub fn property() -> Property {
         },
         info: || PropInfo {
             floors: vec![],
-            rule: "one run = 3..16 real servers + 0..4 clients (private or public plan, optional clock skew, staggered joins) running for 1..3 (thorough 2..6) virtual hours; 0..5 servers crash at seeded instants, half of them restart (same address, fresh state, new id) 1 s..20 min later; 0..30 lookups at seeded instants. Every 30 virtual seconds: (a) each peer that answered a node's lookup or ping request 3 s..(15 min - 30 s, on the node's skewed clock) ago is still in that node's routing table unless its bucket is full or the table re-keyed; (b) dead incarnations are gone from every table 21 min after they stopped; (c) a restarted peer is in some other node's table under its new id within 40 min; (d) no table stays empty longer than the largest request timeout + 2 s while the bootstrap node is alive. Non-trivial = rule (a) was evaluated at least once; distinct = delivery-order hash".into(),
+            rule: "one run = 3..16 real servers + 0..4 clients (private or public plan, optional clock skew, staggered joins) running for 1..3 (thorough 2..6) virtual hours; 0..5 servers crash at seeded instants, half of them restart (same address, fresh state, new id) 1 s..20 min later; 0..30 lookups at seeded instants. Every 30 virtual seconds: (a) each peer that answered a node's lookup or ping request 3 s..(15 min - 30 s, on the node's skewed clock) ago is still in that node's routing table unless its bucket is full or the table re-keyed; (b) dead incarnations are gone from every table 21 min after they stopped; (c) a restarted peer is in some other node's table under its new id within 65 min (old id expiry + a possibly blocked IP slot + one refresh); (d) no table stays empty longer than the largest request timeout + 2 s while the bootstrap node is alive. Non-trivial = rule (a) was evaluated at least once; distinct = delivery-order hash".into(),
             assumptions: vec!["'answered' = a response to a find_node/get/get_peers/get_signed_peers/ping request delivered with RTT < 400 ms".into()],
         },
     }
